@@ -343,6 +343,10 @@ func (c *lexerCompiler) resolveTokenComments() {
 	for _, r := range c.rules {
 		tok := c.out.RuleToken[r.Action]
 		val, _ := r.Pattern.RE.Constant()
+		if strings.ContainsAny(val, "\n\r") {
+			// Comments are emitted on one line, next to the token constant.
+			val = ""
+		}
 		if old, ok := comments[tok]; ok && val != old {
 			comments[tok] = ""
 			continue
